@@ -98,7 +98,7 @@ def real_solver_search(rep, rng, n):
     for i in range(n):
         kinds = ["feasible", "infeasible", "bounds", "lp_infeasible", "bound_only", "lp_zero_row", "nlp_zero_row", "lp_eq_infeasible",
                  "bound_and_looser_row", "objective_swap", "lp_strided_views", "upper_bound_zero", "diverging", "one_expression_two_senses",
-                 "lp_box_only_zero_cost"]
+                 "lp_box_only_zero_cost", "lp_ge_row_resolve", "param_in_constraint_update"]
         kind = kinds[i % len(kinds)]
         x = VectorVariable(f"s{i}", rng.randint(1, 3), lb=rng.choice([None, 0, -1]), ub=rng.choice([None, 2, 5]))
         P = Problem()
@@ -177,6 +177,23 @@ def real_solver_search(rep, rng, n):
             if form % 2:
                 xb[1].lb, xb[1].ub = -3.0, -1.0
             (P.maximize if (i // len(kinds)) % 3 == 1 else P.minimize)(costs)
+        elif kind == "lp_ge_row_resolve":
+            # an LP whose >= row is written with the user's own float64 array, solved, edited, solved again: the relation stays the one
+            # written (feasibility is recomputed from numbers kept APART from the arrays handed to the library)
+            from optyx import VectorVariable as _VVg
+            xg = _VVg(f"g{i}", 3, lb=0.0, ub=10.0)
+            a_user = np.array([2.0, 1.0, 3.0]); a_ref = a_user.copy()
+            c_user = np.array([1.0, 2.0, 1.5])
+            P.minimize(c_user @ xg).subject_to(a_user @ xg >= 6.0)
+            special = ("ge_row", xg, a_ref, 6.0)
+        elif kind == "param_in_constraint_update":
+            # a Parameter inside a compound sub-expression of a constraint, updated between two solves of the same problem
+            from optyx import Parameter as _Pp
+            cap = _Pp(f"cap{i}", 10.0)
+            for v in x:
+                v.lb, v.ub = 0.0, 20.0
+            P.maximize(x.sum() - 0.01 * (x ** 2).sum()).subject_to(x.sum() <= 0.8 * cap)
+            special = ("param", cap, None, None)
         elif kind == "upper_bound_zero":
             # a bound that is exactly 0 is a bound
             x[0].lb, x[0].ub = None, 0
@@ -201,7 +218,15 @@ def real_solver_search(rep, rng, n):
                     warnings.simplefilter("ignore")
                     if kind == "objective_swap":
                         P.minimize(orig_obj)
+                    if kind == "param_in_constraint_update":
+                        special[1].set(10.0)
                     s = P.solve(method=m)
+                    if kind == "lp_ge_row_resolve":
+                        P.subject_to(special[1][0] <= 9.0)        # an edit that drops the LP cache: the rows are extracted again
+                        s = P.solve(method=m)
+                    if kind == "param_in_constraint_update":
+                        special[1].set(5.0)                        # x.sum() <= 4 from now on
+                        s = P.solve(method=m)
                     if kind == "objective_swap":
                         P.minimize(swap_to)
                         s = P.solve(method=m)          # the solve that matters: after the replacement
@@ -219,6 +244,9 @@ def real_solver_search(rep, rng, n):
                     viol = max(viol, v.lb - val)
                 if v.ub is not None:
                     viol = max(viol, val - v.ub)
+            if kind == "lp_ge_row_resolve":
+                xs_ = np.array([s.values[v.name] for v in special[1]])
+                viol = max(viol, special[3] - float(special[2] @ xs_))       # the row AS WRITTEN (reference copy of the user's array)
             if viol > 1e-5:
                 found += 1
                 rep.violation({"kind": "real-solver", "obligation": "OPTIMAL implies feasible", "problem_kind": kind, "method": m,
@@ -283,7 +311,7 @@ def run(rep: vk.Report):
         rep.violation({"kind": "correspondence", "obligation": "wrapper outcome = model post_minimize (SolveWrap.v)",
                        "case": cases.terms[i][:4000], "meta": meta, "model": model,
                        "witness": meta if concrete else None}, concrete=concrete)
-    tried, found = real_solver_search(rep, rng, 60 if rep.tier == "quick" else 600)
+    tried, found = real_solver_search(rep, rng, 68 if rep.tier == "quick" else 680)
     cov = rep.coverage
     cov["evaluations"] = len(cases.terms) + tried
     cov["distinct_nontrivial"] = cases.nontrivial
